@@ -462,6 +462,15 @@ func (c *ctx) malformed(us []*universe.UStruct, perType int) {
 					cn.Count = &cv
 					inputs = append(inputs, tv.ser(nil))
 				}
+				// counts whose product with a per-element size wraps 32 bits (or overflows int32) back into
+				// the remaining length: a count check done by multiplication in a narrow integer passes
+				for _, w := range []uint64{2, 3, 4, 5, 6, 8, 9, 10, 12, 13, 16, 17, 20, 24} {
+					for _, base := range []uint64{1 << 32, 1 << 31} {
+						cv := uint32(base/w + 1)
+						cn.Count = &cv
+						inputs = append(inputs, tv.ser(nil))
+					}
+				}
 				cn.Count = nil
 				if len(inputs) > 4000 {
 					break
@@ -706,7 +715,9 @@ func (c *ctx) history(us []*universe.UStruct, steps int) {
 			// a failing call: truncated message
 			if tv := c.mkMessage(c.writerOf(u), g); tv != nil {
 				m := tv.ser(nil)
-				c.h.opDec(u, m[:c.r.Intn(len(m))], c.dest(u, g), false)
+				if _, _, k := c.h.opDec(u, m[:c.r.Intn(len(m))], c.dest(u, g), false); k != nil {
+					ks = append(ks, k)
+				}
 			}
 		case 4:
 			// rejected type in between
